@@ -45,7 +45,7 @@ fn floats_exact(mv: &MV) -> bool {
         MV::F(b) => {
             let t = format!("{:?}", f64::from_bits(*b));
             match parse_dec_lit(&t) {
-                Some(l) => !(l.must_be_exact_any_build() && l.sig_digits() <= 15),
+                Some(l) => !(l.canonical().must_be_exact_any_build() && l.sig_digits() <= 15),
                 None => true,
             }
         }
